@@ -556,6 +556,11 @@ class HandshakeSettings(object):
             raise ValueError("Key shares for not enabled groups specified: {0}"
                              .format(nonAdvertisedGroup))
 
+        if len(set(other.keyShares)) != len(other.keyShares):
+            # RFC 8446 4.2.8: one KeyShareEntry per group at most
+            raise ValueError("Duplicate key shares specified: {0}"
+                             .format(other.keyShares))
+
         unknownSigHash = not_matching(other.ecdsaSigHashes,
                                       ECDSA_SIGNATURE_HASHES)
         if unknownSigHash:
